@@ -240,6 +240,27 @@ fn check(acc: &mut Acc, case: u64, sc: &Scenario, inj: &Injected, out: &Outcome,
             viol(acc, "the event stream never ended after the connection ended".into());
             return;
         }
+        // 5a. the request the loop had started to serve: if the last thing written before the loop ended is a
+        // noidle, the loop had taken a request from its queue (it cancels idle only on behalf of one); that
+        // caller - the oldest call open at that moment - must be told about a non-clean failure
+        if !clean && !inflight_open_cancelled {
+            let last_unit = a.units.iter().rev().find(|u| u.end_log < exit_log && u.complete);
+            if let Some(u) = last_unit {
+                if u.kind == UnitKind::Noidle {
+                    let served = calls
+                        .iter()
+                        .filter(|c| c.call.caller != 99 && c.start_log < u.start_log && c.end.as_ref().map(|e| e.0 > u.start_log).unwrap_or(true))
+                        .min_by_key(|c| c.start_log);
+                    if let Some(sv) = served {
+                        acc.inc("served_call_checks");
+                        if let Some((_, _, CallResult::ErrClosed)) = &sv.end {
+                            viol(acc, format!("the client had cancelled idle on behalf of c{}#{} when the connection failed, but that caller was told the connection was closed cleanly (ConnectionClosed) instead of receiving the error", sv.call.caller, sv.call.seq));
+                            return;
+                        }
+                    }
+                }
+            }
+        }
         // 5. the failure is surfaced
         if !clean {
             let proto_err_call = calls.iter().any(|c| matches!(&c.end, Some((_, _, CallResult::ErrProtocol(_)))));
@@ -375,6 +396,12 @@ impl Property for C08 {
             }
             acc.inc(&format!("positions_{}", kind_name));
             self.inject(acc, i, &sc, inj, &ba, g, kind_name);
+        }
+    }
+    fn post(&self, cfg: &Cfg, acc: &mut Acc) {
+        if cfg.tier == Tier::Thorough || cfg.has_flag("--with-miri") {
+            let j = super::miri::stage(cfg, "C08", acc);
+            acc.notes.push(("miri_aux_stage".to_string(), j));
         }
     }
     fn meta(&self, cfg: &Cfg, _acc: &Acc) -> Meta {
